@@ -1,5 +1,6 @@
 import GnpyModel.Scalar
 import GnpyModel.RoundHE
+import GnpyModel.Roadm
 /-
 C13 — feasibility verdict and automatic mode selection.
 
@@ -297,6 +298,50 @@ def roadmOsnr {α : Type} : List (PathEl α) → List (Option α)
   | [] => []
   | .roadm o :: rest => o :: roadmOsnr rest
   | .other :: rest => roadmOsnr rest
+
+end Gnpy.Verdict
+
+namespace Gnpy.Verdict
+open Gnpy.Roadm (PType Band Profile selectProfile lookupBands)
+
+section crossing
+variable {α : Type} [Add α] [Sub α] [Mul α] [Div α] [Neg α] [NatCast α] [LT α] [LE α]
+  [DecidableLT α] [DecidableLE α] [Transc α]
+
+/-- one ROADM crossing of a path as far as the added noise is concerned: the library profiles of the ROADM's type
+variety (each `Band.value` = the `roadm-osnr` of that frequency range, `none` when the key is absent), the id of the
+user's `per_degree_impairments` entry for this (from, to) pair if any, the path type (add when the previous element is
+the transceiver, drop when the next one is, else express) and the node's `add_drop_osnr` -/
+structure Crossing (α : Type) where
+  profiles : List (Profile α)
+  user : Option Nat
+  ptype : PType
+  addDropOsnr : α
+
+/-- the `roadm-osnr` value a crossing contributes for the carrier at frequency `f`
+(`Roadm.set_roadm_paths` + `Roadm.get_impairment('roadm-osnr', …)`): the selected profile's value for the first
+frequency range containing the carrier; without any profile the global default, which for add and drop paths is
+`add_drop_osnr + lin2db(2)` (the library states add and drop together) and is absent for express paths -/
+def crossingOsnr (c : Crossing α) (f : α) : Except String (Option α) :=
+  match selectProfile c.profiles c.user c.ptype with
+  | .error e => .error e
+  | .ok (some p) => .ok (lookupBands p.bands f)
+  | .ok none =>
+    match c.ptype with
+    | .express => .ok none
+    | _ => .ok (some (c.addDropOsnr + lin2db ((2:Nat) : α)))
+
+/-- the `roadm_osnr` list of a path for one carrier: one entry per crossing, in path order -/
+def crossingsOsnr (cs : List (Crossing α)) (f : α) : Except String (List (Option α)) :=
+  cs.mapM (fun c => crossingOsnr c f)
+
+/-- the arguments of the receiver's `update_snr` for one carrier -/
+def receiverArgs (cs : List (Crossing α)) (f txOsnr : α) : Except String (List (Option α)) :=
+  match crossingsOsnr cs f with
+  | .error e => .error e
+  | .ok l => .ok (l ++ [some txOsnr])
+
+end crossing
 
 /-- `propagate`: `roadm_osnr.append(si.tx_osnr); path[-1].update_snr(*roadm_osnr)` -/
 def propagateArgs {α : Type} (path : List (PathEl α)) (txOsnr : α) : List (Option α) :=
